@@ -1162,7 +1162,7 @@ class ExprBuilder:
         as an expression; None for any other constant"""
         facts = getattr(self.f, 'facts', None)
         c = facts.consts.get(op.get('def_path') or '') if facts is not None and op.get('def_path') else None
-        if not c or 'init' not in c:
+        if not c or 'init' not in c or not (c.get('ty') or '').startswith(('[', '(')):
             return None
         vals = {}
 
@@ -1182,9 +1182,39 @@ class ExprBuilder:
                 vals[st['lhs']['l']] = ev(rv['op'])
         return vals.get(0)
 
+    def const_alias(self, op):
+        """a crate-local constant that only gives another name to a libc constant or to an enum variant
+        (`const STATX_FLAGS: c_int = libc::AT_EMPTY_PATH;`, `const DEFAULT_KIND: Kind = Kind::File;`): the thing named"""
+        facts = getattr(self.f, 'facts', None)
+        c = facts.consts.get(op.get('def_path') or '') if facts is not None and op.get('def_path') else None
+        if not c or not (1 <= len(c.get('init') or []) <= 3):
+            return None
+        vals = {}
+        for st in c['init']:
+            if st.get('k') != 'assign' or st['lhs']['p']:
+                return None
+            rv = st['rv']
+            x = None
+            if rv['k'] in ('use', 'cast'):
+                o = rv['op']
+                if o.get('k') == 'const' and re.match(r'^(io_uring::)?libc::\w+$', o.get('def') or ''):
+                    x = E('const', const_val(o), o.get('def'), o.get('ty'), None)
+                elif 'l' in o and not o['p'] and o['l'] in vals:
+                    x = vals[o['l']]
+            elif rv['k'] == 'agg' and rv.get('ak') == 'adt' and not rv.get('ops') and rv.get('variant'):
+                x = E('agg', rv['adt'] + '::' + rv['variant'], tuple(rv.get('fields') or ()), ())
+            if x is None:
+                return None
+            vals[st['lhs']['l']] = x
+        return vals.get(0)
+
     def operand(self, op, depth=0, stack=()):
         if op.get('k') == 'const':
             v = const_val(op)
+            if op.get('def_path') and not op.get('promoted'):
+                al = self.const_alias(op)
+                if al is not None:
+                    return al
             if v is None and op.get('def_path') and not op.get('promoted'):
                 tb = self.const_table(op)
                 if tb is not None:
@@ -1373,6 +1403,9 @@ def simplify_proj(base, projs, ty=None):
     if base[0] == 'call' and base[1] == 'std::ops::Try::branch' and len(projs) >= 2 and projs[:2] == ('@Continue', '.0') \
             and (base[3] or '').startswith('<std::option::Option') and len(base[2]) == 1:
         return simplify_proj(base[2][0], ('@Some', '.0') + projs[2:], ty)
+    # element of a known array literal at a constant index
+    if base[0] == 'agg' and base[1] == 'array' and re.match(r'^\[\d+\]$', projs[0]) and int(projs[0][1:-1]) < len(base[3]):
+        return simplify_proj(base[3][int(projs[0][1:-1])], projs[1:], ty)
     # downcast of a known aggregate: `Some{x}@Some` is the aggregate itself
     if base[0] == 'agg' and projs[0].startswith('@') and base[1].endswith('::' + projs[0][1:]):
         return simplify_proj(base, projs[1:], ty) if projs[1:] else base
@@ -1694,6 +1727,26 @@ def eval_int(f, eb, e, depth=0):
                         vals.add(eval_int(g, eg, eg.rvalue(s_['rv']), depth + 1))
                 if len(vals) == 1:
                     return next(iter(vals))
+            # a required associated constant (no default): the value of the implementation selected by the constants
+            # fixed so far — `T::USER_DATA_TAG` under IS_MULTISHOT = v is the TAG of the impl whose IS_MULTISHOT is v
+            if m and facts is not None:
+                tr, cn = m.group(1), m.group(2)
+                impls = {}
+                for path, c in facts.consts.items():
+                    m2 = re.match(r'^<(.+) as %s>::(\w+)$' % re.escape(tr), path)
+                    if m2 and c.get('val') is not None:
+                        impls.setdefault(m2.group(1), {})[m2.group(2)] = int(c['val'])
+                sel = []
+                for ty_, cs_ in impls.items():
+                    ok_ = cn in cs_
+                    for suf, val in getattr(f, 'const_overrides', {}).items():
+                        msuf = re.match(r'^(.*)>::(\w+)$', suf)
+                        if msuf and tr.endswith(msuf.group(1)) and cs_.get(msuf.group(2)) is not None and cs_[msuf.group(2)] != int(val):
+                            ok_ = False
+                    if ok_:
+                        sel.append(cs_[cn])
+                if len(set(sel)) == 1 and getattr(f, 'const_overrides', {}):
+                    return sel[0]
         return None
     if k == 'cast':
         return eval_int(f, eb, e[4], depth + 1)
@@ -1823,6 +1876,20 @@ def must_have_bits(f, bits, at, field='flags', struct_suffix=None, start=None):
     for s_ in f.blocks[at[0]]['stmts'][:at[1]]:
         st = xfer_stmt(st, s_)
     return FIELD in st
+
+
+def not_passed_through(f, t):
+    """arguments of call terminator t that are not the caller's own parameter at the same position (moved, copied,
+    reborrowed): list of (index, expression); empty when the call forwards its parameters unchanged"""
+    lb = ExprBuilder(f, multi='leaf')
+    bad = []
+    for i_, a_ in enumerate(t['args']):
+        e_ = lb.operand(a_)
+        while e_[0] in ('cast', 'ref') or (e_[0] == 'proj' and tuple(e_[2]) == ('*',)):
+            e_ = e_[4] if e_[0] == 'cast' else e_[1]
+        if not (e_[0] == 'arg' and e_[1] == i_ + 1):
+            bad.append((i_, e_))
+    return bad
 
 
 def correlated_alternatives(f, operands, multi='phi'):
